@@ -197,6 +197,8 @@ def run(check):
     # on the raw annotation/default (table B7), or plain inputs get other parameters than upgraded ones (shared with C10.R1)
     from .. import rules_merge as rm
     check.run_rule('C15.R4b', lambda c: rm.concile_table(c, c.repo, {'annotation': 'C15.R4', 'default': 'C15.R4'}))
+    from ..rules_classes import rule_upgrade_idempotent
+    check.run_rule('C15.R4c', lambda c: rule_upgrade_idempotent(c, 'C15.R4'))
     check.run_rule('C15.R5', lambda c: rule_fallback_discipline(c, 'C15.R5'))
     M = Models(check)
     from ..rules_embed import rule_embed_buckets
